@@ -27,7 +27,8 @@ WEIGHTS = {'exact_counts': 9, 'layered': 4, 'split_candidate': 2, 'merge_chain':
 
 
 def strategy(tier):
-    return S.pipeline_case(WEIGHTS, vary=('msa', 'okta', 'sep'), p_default_prms=0.1)
+    return S.pipeline_case(WEIGHTS, vary=('msa', 'okta', 'sep'), p_default_prms=0.1, anomalies=True,
+                           anomaly_negative=False)
 
 
 def enum_case(classes, msa):
